@@ -338,6 +338,24 @@ def _const_cond(rng, params):
     return fir.BIN('lt', fir.BIN('add', fir.I(1), fir.I(1)), fir.I(rng.choice((1, 3))))
 
 
+def _prunable(rng, s, depth=0):
+    """a construct around statement ``s`` that dead-code removal must prune completely, whatever encloses it: a constant IF,
+    a SELECT CASE with a literal selector that matches a (not necessarily first) case, or either of them one level deeper
+    inside an IF whose condition only `simplify` can decide (kept without simplify)"""
+    T, F = fir.Bl(True), fir.Bl(False)
+    c = rng.random()
+    if c < 0.35 or depth >= 2:
+        return [A('if'), rng.choice((T, F)), [s], [s]]
+    if c < 0.75:
+        v = rng.choice((1, 2, 3, 0, -2))
+        inner = _prunable(rng, s, depth + 1) if rng.random() < 0.5 else s
+        cases = [[[v + 5], [s]], [[v, v + 9] if rng.random() < 0.4 else [v], [inner]]]
+        if rng.random() < 0.5:
+            cases.reverse()
+        return [A('select'), fir.ilit(v), cases, [s]]
+    return [A('if'), fir.BIN('eq', fir.I(1), fir.I(rng.choice((1, 2)))), [_prunable(rng, s, depth + 1)], [s]]
+
+
 def dead_decorate(prog, rng, p=0.45):
     """constant conditions in IF statements (also wrapped around other statements, also as ELSE IF chains) and literal
     selectors in SELECT CASE"""
@@ -355,14 +373,26 @@ def dead_decorate(prog, rng, p=0.45):
                 elif k == 'if' and r < p + 0.15:
                     # turn into an else-if chain with a constant link
                     s = [s[0], s[1], s[2], [[A('if'), _const_cond(rng, params), s[3] or [[A('cycle')]][:0], s[2][:1]]]]
-                elif k == 'select' and r < p:
-                    s = [s[0], fir.I(rng.choice([int(str(v)) for c in s[2] for v in c[0]] + [7])), s[2], s[3]]
+                elif k == 'select' and r < p + 0.25 and s[2]:
+                    # literal selector; mostly one that matches a case, whose body then holds something prunable itself
+                    # (the chosen branch must be returned in its pruned form)
+                    j = rng.randrange(len(s[2]))
+                    if rng.random() < 0.8 and s[2][j][0]:
+                        sel = int(str(rng.choice(s[2][j][0])))
+                        cases = [[c[0], ([_prunable(rng, c[1][0])] + list(c[1][1:])) if (i == j and c[1]) else c[1]]
+                                 for i, c in enumerate(s[2])]
+                        s = [s[0], fir.ilit(sel), cases, s[3]]
+                    else:
+                        s = [s[0], fir.ilit(rng.choice([int(str(v)) for c in s[2] for v in c[0]] + [7])), s[2], s[3]]
                 elif k in ('assign', 'print', 'callsub') and r < 0.12:
                     s = [A('if'), _const_cond(rng, params), [s], [] if rng.random() < 0.5 else [s]]
                 elif k in ('assign', 'print', 'callsub') and r < 0.2:
                     # constant IF nested in a constant IF: the pruned branch must itself have been pruned
                     inner = [A('if'), rng.choice((fir.Bl(True), fir.Bl(False))), [s], [s]]
                     s = [A('if'), rng.choice((fir.Bl(True), fir.Bl(False))), [inner], [inner]]
+                elif k in ('assign', 'print', 'callsub') and r < 0.32:
+                    # prunable construct inside the branch a literal SELECT CASE / constant IF chooses
+                    s = _prunable(rng, _prunable(rng, s, 1), 0)
                 res.append(s)
             return res
         body = fir.map_program([A('program'), u[1], u], fs=fs)[2][4]
